@@ -158,9 +158,21 @@ func families() []family {
 			{"twice-adjacent", counter, absCounter, twiceAdjacent},
 			{"twice-second-pass", counter, absCounter, twicePasses},
 			{"shortlex-bytes", short, absShort, plain},
+			{"bloom-hash-zero-first", hashZeroFirst(counter), absCounter, plain},
 		}
 	})
 	return fams
+}
+
+// hashZeroFirst: the first key is the 4-byte string whose bloom hash is 0 (the zero value of every
+// "last hash seen" field), followed by the counter keys. The hash value is asserted, so that a change
+// of the hash function is noticed instead of silently making the family ordinary.
+func hashZeroFirst(rest [][]byte) [][]byte {
+	k := []byte{0x88, 0x7c, 0xf2, 0x59}
+	if h := bloom.VerifHash(k); h != 0 {
+		panic(fmt.Sprintf("c26: the bloom hash of % x is %#x, not 0: pick a new key for this family", k, h))
+	}
+	return append([][]byte{k}, rest[:len(rest)-1]...)
 }
 
 func familyByName(name string) (family, bool) {
@@ -235,8 +247,10 @@ func checkFilter(p base.TableFilterPolicy, f family, n int, verbose bool) (res f
 		}
 	}()
 	w := p.NewWriter()
-	pass := func(name string, n int) (built bool) {
-		adds := f.order(f.keys, n)
+	var pass func(name string, n int) (built bool)
+	passKeys := func(name string, keys [][]byte) (built bool) {
+		n := len(keys)
+		adds := f.order(keys, n)
 		for _, k := range adds {
 			w.AddKey(k)
 		}
@@ -259,7 +273,7 @@ func checkFilter(p base.TableFilterPolicy, f family, n int, verbose bool) (res f
 			res.hash = xxhash.Sum64(data)
 			res.filterLen = len(data)
 		}
-		for i, k := range f.keys[:n] {
+		for i, k := range keys {
 			res.probes++
 			if !dec.MayContain(data, k) {
 				if res.fl == nil {
@@ -283,9 +297,15 @@ func checkFilter(p base.TableFilterPolicy, f family, n int, verbose bool) (res f
 		}
 		return true
 	}
+	pass = func(name string, n int) bool { return passKeys(name, f.keys[:n]) }
 	res.built = pass("fresh", n)
 	if res.fl == nil && n >= 2 {
 		pass("reused", n/2)
+	}
+	if res.fl == nil && n >= 2 {
+		// third use of the same writer: its FIRST key is the LAST key of the previous filter (state
+		// that survives Finish - a remembered last hash, a cached prefix - would be compared with it)
+		passKeys("reused-from-previous-last-key", f.keys[n/2-1:n])
 	}
 	switch {
 	case res.fl != nil:
